@@ -260,6 +260,10 @@ class PathLossBase:
         PL : float | np.ndarray
             Path loss (in dB) for the given distance(s).
         """
+        if isinstance(d, Iterable):
+            # Lists and arrays of any numeric type: always compute in double
+            # precision (np.log10 of an int8 array is a float16 array)
+            d = np.asarray(d, dtype=float)
         PL = self._calc_deterministic_path_loss_dB(d, **kargs)
         if self.use_shadow_bool is True:  # pragma: no cover
             # Shadowing modeled by a Gaussian Distribution (in dB)
